@@ -63,7 +63,10 @@ def run_property(pid, tier, plan, check_mod, level="model_checking", rule="", as
             left = None
             if budget_s:
                 left = max(5.0, budget_s - (time.time() - t0))
-            r = ex.explore(world, alphabet, depth, check_mod, budget_s=left, opts=explore_opts or {})
+            if isinstance(alphabet, list):   # an explicit list of histories instead of an alphabet
+                r = ex.run_histories(world, alphabet, check_mod, opts=explore_opts or {}, twice=min(8, len(alphabet)))
+            else:
+                r = ex.explore(world, alphabet, depth, check_mod, budget_s=left, opts=explore_opts or {})
             tot["states"] += r["states"]
             tot["transitions"] += r["transitions"]
             tot["histories"] += r["histories"]
